@@ -135,7 +135,10 @@ class Real(Type):
         elif data == 0.0:
             data = '0'
         else:
-            data = '{}E0'.format(data)
+            # repr() may use an exponent itself ('1e+22', '5e-324');
+            # a GSER realnumber has exactly one, written 'E<integer>'.
+            mantissa, _, exponent = '{}'.format(data).partition('e')
+            data = '{}E{}'.format(mantissa, int(exponent or 0))
 
         return data
 
